@@ -537,6 +537,19 @@ def check_main(prop, args):
         else:
             agg.harness.append(res)
 
+    # 1b. regression replays: histories that once violated the property on /repo (defects since repaired) must pass
+    import glob as _glob
+    nreg = 0
+    for wpath in sorted(_glob.glob(os.path.join(VERIF, "regressions", prop.id + "-*.json"))):
+        doc, res, c = do_replay(prop, wpath)
+        nreg += 1
+        if c == "violation":
+            print("note: regression replay %s fails again: %s" % (os.path.relpath(wpath, VERIF), res.get("sig")))
+            sigs.setdefault(res.get("sig"), dict(res, doc=doc))
+        elif c != "ok":
+            agg.harness.append(res)
+    state["regression_replays"] = nreg
+
     # 2. deterministic part (enumerations), then seeded search
     run_lanes(work, nlanes, budget, timeout_s, on_result)
     wall = time.time() - t0
@@ -581,7 +594,8 @@ def check_main(prop, args):
 
     reach_missing = [r for r in getattr(prop, "reach_probes", []) if not _get_stat(agg.stats, r)]
     extra = {"reach_probes_zero": reach_missing, "lanes": nlanes, "budget_s": budget,
-             "first_run_seed": run_seed(base_seed, prop.id, tier, 0)}
+             "first_run_seed": run_seed(base_seed, prop.id, tier, 0),
+             "regression_replays_passed": state.get("regression_replays", 0)}
     extra.update(getattr(prop, "extra_coverage", lambda agg: {})(agg))
     write_evidence(prop, tier, base_seed, agg, wall, extra, violations=new_violations)
     print("%s %s: runs=%d nontrivial=%d distinct_nontrivial=%d steps=%d wall=%.1fs runs/h=%d harness_errors=%d" % (
